@@ -39,3 +39,13 @@ Definition publish_data_chunked (p : path) (chs : list chunk) : list call :=
    its own bookkeeping of what was synced incrementally, that nothing is left to flush) *)
 Definition publish_data_chunked_nofinal (p : path) (chs : list chunk) : list call :=
   Create (tmp_of p) :: bursts (tmp_of p) chs ++ [Rename (tmp_of p) p; FsyncDir (dir_of p)].
+
+(* ---- burst refinement of WHOLE traces (second audit: lift the ops-level theorems to burst-written files) ----------
+   tr' is a burst refinement of tr: some (any number, possibly none, possibly all) of the Write calls of tr -- to
+   whatever file: data files, manifests, metadata files, the pointer -- are replaced by a list of bursts carrying the
+   same content in the same order (gen_data_writer_burst each), each burst optionally followed by an incremental fsync
+   of that file; every other call is kept, in place. *)
+Inductive burst_of : list call -> list call -> Prop :=
+| bo_nil : burst_of [] []
+| bo_keep : forall c tr' tr, burst_of tr' tr -> burst_of (c :: tr') (c :: tr)
+| bo_split : forall t chs tr' tr, burst_of tr' tr -> burst_of (bursts t chs ++ tr') (Write t (chunks_content chs) :: tr).
